@@ -486,6 +486,38 @@ def no_swapped_arguments(ctx, rule):
     ctx.floor(rule, n, 300)
 
 
+def counts_follow_lists(ctx, rule):
+    """the segment counters that the precondition check compares are kept with the lists: linking a segment in raises its counter by
+    one on that very path, and nothing else does"""
+    pdb = ctx.pdb
+    n = 0
+    for fname, cnt in (("rtr_bgpsec_append_sec_path_seg", "rtr_bgpsec.path_len"), ("rtr_bgpsec_prepend_sec_path_seg", "rtr_bgpsec.path_len"),
+                       ("rtr_bgpsec_append_sig_seg", "rtr_bgpsec.sigs_len"), ("rtr_bgpsec_prepend_sig_seg", "rtr_bgpsec.sigs_len")):
+        if not pdb.has_fn(fname):
+            continue
+        fn = pdb.fn(fname)
+        ctx.touch(fn)
+        n += 1
+
+        def classify(inst, E, st, fn=fn, cnt=cnt):
+            if inst.op == "store":
+                if vf.store_field(inst) == cnt:
+                    v = vf.expr(fn, inst["val"])
+                    return ["count+1" if v == ("bin", "add", ("load", vf.expr(fn, inst["ptr"])), ("c", 1)) else "count?"]
+                if vf.expr(fn, inst["val"]) == ("arg", 1) and vf.root_of(vf.expr(fn, inst["ptr"])) != ("alloca",):
+                    r = vf.root_of(vf.expr(fn, inst["ptr"]))
+                    if not (isinstance(r, tuple) and r[0] == "alloca"):
+                        return ["linked"]
+            return None
+        outs, _f = es.count_effects(fn, pdb, classify, None, cap=96)
+        bad = [o for o in outs if o["counts"].get("count?") or o["counts"].get("count+1", 0) != o["counts"].get("linked", 0) or
+               (flow.av_single(o["ret"]) in (0, None) and o["counts"].get("linked", 0) != 1 and fn.d["ret"] == "void")]
+        ctx.check(bool(outs) and not bad, rule, "%s:count-follows-list" % fname, (bad[0]["inst"].loc() if bad else "%s:%d" % (fn.relfile, fn.line)),
+                  ("a path links the segment %d time(s) and raises the counter %d time(s)" % (bad[0]["counts"].get("linked", 0), bad[0]["counts"].get("count+1", 0))) if bad else
+                  "every path links the new segment once and raises %s once" % cnt.split(".")[1], key="%s:%s:count" % (rule, fname))
+    ctx.floor(rule, n, 2)
+
+
 def check(ctx):
     pdb = ctx.pdb
     retsets = flow.return_sets(pdb)
@@ -498,6 +530,7 @@ def check(ctx):
     r5(ctx, retsets, VP, "C11.R5", validate_cells(pdb))
     no_static_state(ctx, "C11.R5")
     no_swapped_arguments(ctx, "C11.R5")
+    counts_follow_lists(ctx, "C11.R5")
     # check_router_keys: every signature segment's SKI must have at least one key
     ck = pdb.fn("check_router_keys")
     ctx.touch(ck)
